@@ -60,5 +60,12 @@ Inv_Wellformed0 == font.order = Glyphs => WellFormed(font)          \* the famil
 Inv_NameView == bug = "none" => NameView(font) = view0
 Inv_WellFormed == bug = "none" => WellFormed(font)
 Inv_Order == font.order[1] = "nd" /\ IsPermOf(font.order, Glyphs)
+(* the judge's fast form of PermutedArray agrees with the general one *)
+Inv_PermutedId ==
+  LET ids == [i \in 1..4 |-> i]
+      new == [g \in 1..4 |-> IndexOf(Glyphs, font.order[g])]
+      arrB == <<"w", "x", "y", "z">>
+  IN \A arrA \in {[g \in 1..4 |-> arrB[new[g]]], arrB} :
+        PermutedArray(arrB, arrA, ids, new) = PermutedArrayId(arrB, arrA, new)
 NegReport == (bug # "none" /\ ~(NameView(font) = view0 /\ WellFormed(font))) => PrintT(<<"NEG", bug>>)
 =============================================================================
